@@ -247,12 +247,14 @@ int32_t psAesDecryptGCM(psAesGcm_t *ctx,
     psSize_t tagLen;
     unsigned char tag[AES_BLOCKLEN];
 
-    if (ctLen > ptLen)
+    if (ctLen > ptLen && ctLen - ptLen <= AES_BLOCKLEN)
     {
         tagLen = ctLen - ptLen;
     }
     else
     {
+        /* no tag, or a "tag" longer than a block: psAesGetGCMTag() would
+           write past tag[AES_BLOCKLEN] */
         return PS_ARG_FAIL;
     }
 
@@ -274,6 +276,12 @@ int32_t psAesDecryptGCM2(psAesGcm_t *ctx,
 {
     unsigned char tagTmp[AES_BLOCKLEN];
 
+    if (tagLen == 0 || tagLen > AES_BLOCKLEN)
+    {
+        /* a zero-length compare would accept anything; more than a block
+           would read past tagTmp[] */
+        return PS_ARG_FAIL;
+    }
     psAesEncryptGCMx(ctx, ct, pt, len, 0);
     psAesGetGCMTag(ctx, AES_BLOCKLEN, tagTmp);
 
